@@ -114,6 +114,11 @@ def run_unit(unit, repo, workdir, variables=None, rlimit=None, suffix=''):
             continue
         res.obligations.setdefault(f'{unit}.{label}.body', {'status': 'discharged', 'msg': '', 'fn': label,
                                    'line': a, 'contract': f'body of {label}: callee preconditions, arithmetic, panics'})
+    for label, msg_, tags_ in gen.lost:
+        res.tooling.append(f'lost anchor: {msg_}')
+        for t_ in tags_ + [f'{unit}.{label}.body']:
+            res.obligations[t_] = {'status': 'undecided', 'msg': 'lost anchor: ' + msg_, 'fn': label, 'line': 0, 'contract': ''}
+    lost_names = {t_ for _, _, tags_ in gen.lost for t_ in tags_} | {f'{unit}.{label}.body' for label, _, _ in gen.lost}
     compile_failed = False
     for d in diags:
         if d.get('level') != 'error':
@@ -196,6 +201,9 @@ def run_unit(unit, repo, workdir, variables=None, rlimit=None, suffix=''):
             for ob in res.obligations.values():
                 if ob['status'] == 'discharged':
                     ob['status'] = 'undecided'
+    for n_ in lost_names:
+        if n_ in res.obligations:
+            res.obligations[n_]['status'] = 'undecided'
     for c, fired in res.canaries.items():
         if not fired and res.status == 'ok':
             res.status = 'tooling'
